@@ -317,6 +317,8 @@ bool Instance::eval(const size_t argc, char* const* argv) {
                 fprintf(stderr, "Error: %s\n", ScriptErrorString(*env->serror).c_str());
                 return false;
             }
+            // a signature check later in this same list must not see an iterator into the temporary script either
+            if (env->pbegincodehash != restore_codehash.prev) restore_codehash.prev = env->pbegincodehash = env->pc;
         }
     } catch (const std::exception& ex) {
         // e.g. script number overflow: a failed operation, as in Instance::step(), not the end of the debugger
